@@ -45,6 +45,11 @@ def build_pool(d):
         fh.write(b"\0" * 8192 + rnd.randbytes(4096) + b"\0" * 4096 + b"tail")
     with open(os.path.join(src, "text"), "wb") as fh:
         fh.write(b"hello world " * 2000)
+    # files that end in zeros: a short all-zero last block / tail is stored as a hole
+    with open(os.path.join(src, "zerotail"), "wb") as fh:
+        fh.write(rnd.randbytes(4096) + b"\0" * 1000)
+    with open(os.path.join(src, "allzero"), "wb") as fh:
+        fh.write(b"\0" * 10000)
     with open(os.path.join(src, "sub", "small"), "wb") as fh:
         fh.write(b"small file")
     with open(os.path.join(src, "sub", "deep", "dup"), "wb") as fh:
